@@ -120,7 +120,8 @@ Theorem C10_generated_decisions :
   ((forall k r n, root_ok k r n = (Z.leb 0 r && Z.ltb r n)) /\
    (forall k, tree_resets k = true) /\ kr_resets = true /\ (forall k, forest_resets k = true)) /\
   (ctor_defaults_immutable = true /\ exclusion_defaults_are_none = true /\
-   forall k p, default_cfg k p = Some (mkCfg k false false p)).
+   forall k p, default_cfg k p = Some (mkCfg k false false p)) /\
+  (call_runs_compute = true /\ forall (old new : option tree), call_again old new = new).
 Proof. exact generated_decisions. Qed.
 Print Assumptions C10_generated_decisions.
 
